@@ -128,7 +128,10 @@ async def _sd_body(name, spec):
     sd = spec.get('sd', 0)
     if sd:
         try:
-            await asyncio.sleep(sd)
+            if sd == 'never':
+                await CTX.loop.create_future()
+            else:
+                await asyncio.sleep(sd)
         except asyncio.CancelledError:
             log('sd_cancel', name)
             raise
